@@ -43,14 +43,16 @@ type vRes struct {
 	Err   string  `json:"err,omitempty"`
 	Panic string  `json:"panic,omitempty"`
 	JSON  []byte  `json:"json,omitempty"`
-	JErr  string  `json:"jerr,omitempty"`
-	Agent string  `json:"agent,omitempty"`
-	Alloc uint64  `json:"alloc,omitempty"`
-	Ns    int64   `json:"ns,omitempty"`
-	NRec  int     `json:"nrec"`
-	ExpOK bool    `json:"exp_unchanged"`
-	MaxF  int     `json:"maxf"`
-	Recs  [][]vNO `json:"recs"`
+	// the message decoded before this one no longer holds what it held
+	PrevChanged bool    `json:"prev_changed,omitempty"`
+	JErr        string  `json:"jerr,omitempty"`
+	Agent       string  `json:"agent,omitempty"`
+	Alloc       uint64  `json:"alloc,omitempty"`
+	Ns          int64   `json:"ns,omitempty"`
+	NRec        int     `json:"nrec"`
+	ExpOK       bool    `json:"exp_unchanged"`
+	MaxF        int     `json:"maxf"`
+	Recs        [][]vNO `json:"recs"`
 }
 
 type vJobRes struct {
@@ -118,6 +120,34 @@ func vWatchdog(limitMB uint64, limit time.Duration) {
 	}
 }
 
+// the message decoded (and encoded) before the current one, and what it held then: a message belongs to its
+// caller - decoding another datagram must not change it
+var (
+	vPrev      *Message
+	vPrevFlows [][]vNO
+)
+
+func vPrevChanged() bool {
+	if vPrev == nil {
+		return false
+	}
+	now := [][]vNO{}
+	for _, f := range vPrev.Flows {
+		now = append(now, vStruct(f))
+	}
+	if len(now) != len(vPrevFlows) {
+		return true
+	}
+	for i := range now {
+		for j := range now[i] {
+			if now[i][j].N != vPrevFlows[i][j].N || !bytes.Equal(vBytes(now[i][j].O), vBytes(vPrevFlows[i][j].O)) {
+				return true
+			}
+		}
+	}
+	return false
+}
+
 func vRunMsg(m vMsg, wantJSON, measure bool) (res vRes) {
 	res.Hdr, res.Flows, res.Recs = []vNO{}, [][]vNO{}, [][]vNO{}
 	exp := net.IP(vBytes(m.Exp))
@@ -172,6 +202,8 @@ func vRunMsg(m vMsg, wantJSON, measure bool) (res vRes) {
 			res.JSON = append([]byte{}, b...)
 		}
 	}
+	res.PrevChanged = vPrevChanged()
+	vPrev, vPrevFlows = msg, res.Flows
 	return
 }
 
